@@ -104,7 +104,8 @@ func encryptSide(r *mon.Run) {
 			lists = append(lists, []string{a, b})
 		}
 	}
-	full := []string{"X1", "X2", "X3", "E1", "E2", "E3", "R1", "R2", "R3", "R4", "U0", "U1", "U2", "U3"}
+	lists = append(lists, []string{"U4", "X1"}, []string{"E1", "U4"})
+	full := []string{"X1", "X2", "X3", "E1", "E2", "E3", "R1", "R2", "R3", "R4", "U0", "U1", "U2", "U3", "U4"}
 	for i := 0; i < r.Pick(60, 400); i++ {
 		n := 3 + rng.Intn(5)
 		var l []string
